@@ -63,6 +63,15 @@ SUMMARIES = {
     'dft_preprocess_data': {
         'arr': 'R', 'out': 'W', '__returns__': 'out',
         '__why__': 'out = arr * phase factors (np.multiply with out=)'},
+    'linear_deform': {
+        'template': 'R', 'displacement': 'R', 'out': 'W',
+        '__returns__': 'out',
+        '__why__': 'interpolates the template at the displaced points; with '
+                   'out= the interpolator zero-fills / assigns out and then '
+                   'accumulates node values of the template into it '
+                   '(_PerAxisInterpolator._evaluate: out[:] = 0.0 before '
+                   'the reads of self.values): not safe for out sharing '
+                   'memory with the template'},
     'dft_postprocess_data': {
         'arr': 'R', 'out': 'W', '__returns__': 'out',
         '__why__': 'out = arr * factors'},
@@ -92,6 +101,8 @@ class PathResult(object):
         self.raised = False
         self.unknown = []      # (lineno, text): tracked buffer handed to an
         #                        unknown callee
+        self.alias_kernel = []  # (lineno, text): a summarised kernel gets
+        #                         the shared buffer as input and as output
         self.assume = {}
         self.ret_alias = None  # cell/via of a returned tracked name
 
@@ -339,6 +350,17 @@ class Analyzer(object):
                 for k in c.keywords:
                     if k.arg:
                         bound[k.arg] = k.value
+                effs = set()
+                for p, a in bound.items():
+                    nm, partial = base(a)
+                    if nm and cell(nm) and summ.get(p) in ('R', 'W', 'RW'):
+                        effs.add(summ.get(p)[0])
+                if A.alias_mode and {'R', 'W'} <= effs and not summ.get(
+                        '__alias_safe__'):
+                    # under `x is out` the kernel receives one buffer as its
+                    # input and as its output; a summarised kernel promises
+                    # nothing about the order of its reads and writes
+                    res.alias_kernel.append((c.lineno, ast.unparse(c)[:80]))
                 for p, a in bound.items():
                     nm, partial = base(a)
                     if nm and cell(nm):
